@@ -119,6 +119,15 @@ CrashRestart ==
   /\ UNCHANGED <<store, reg, acked>>
   /\ op' = [kind |-> "restart", outcome |-> "after-request"]
 
+\* the node stops between requests; the first start meets a storage read error (which = "list": the keyspace list,
+\* "meta": the metadata scan of the keyspace) and is refused (load_states_from_storage returns the error, no node
+\* comes up); the next start succeeds.  A start that reported success must have built what storage holds.
+FailedStart(which) ==
+  /\ WithCrash
+  /\ st' = Rebuild(store)
+  /\ UNCHANGED <<store, reg, acked>>
+  /\ op' = [kind |-> "restart", outcome |-> "after-request", fail |-> which]
+
 \* the node stops inside a single set/del request: storage written, set not updated; then restarts
 CrashMid(isDel, src, k, ts) ==
   LET kind == IF isDel THEN "del" ELSE "ins"
@@ -156,6 +165,7 @@ Next ==
      \/ DoPurge("ok", {})
      \/ \E W \in SUBSET Keys : DoPurge("fail", W)
      \/ CrashRestart
+     \/ \E w \in {"list", "meta"} : FailedStart(w)
      \/ \E d \in BOOLEAN, src \in Sources, k \in Keys, ts \in Stamps : CrashMid(d, src, k, ts)
 
 Spec == Init /\ [][Next]_vars
